@@ -9,7 +9,11 @@ const TRANSPORT: &str = "Transport";
 impl RelayPacket {
     /// Determine if this packet is in a handshake state.
     pub fn is_handshake(&self) -> bool {
-        self.payload.as_ref().unwrap().is_handshake()
+        // Packets come from the network, the payload may be missing
+        self.payload
+            .as_ref()
+            .map(|payload| payload.is_handshake())
+            .unwrap_or(false)
     }
 
     /// Encode a packet prefixed with the target public key.
@@ -82,7 +86,10 @@ impl RelayPayload {
 
     /// Determine if this payload is in a handshake state.
     pub fn is_handshake(&self) -> bool {
-        let kind: RelayType = self.kind.try_into().unwrap();
-        kind.as_str_name() == HANDSHAKE
+        // Packets come from the network, the kind may be unknown
+        match RelayType::try_from(self.kind) {
+            Ok(kind) => kind.as_str_name() == HANDSHAKE,
+            Err(_) => false,
+        }
     }
 }
